@@ -1366,6 +1366,124 @@ example :
        s'.st.vars.map (·.val) = [.int 3] ∧ s'.st.pool.map (·.val) = [.int 5]) := by
   refine ⟨⟨by simp, by simp⟩, ⟨_, rfl, rfl, rfl, rfl⟩, ⟨_, rfl, rfl, rfl⟩⟩
 
+/-! ### Operators: the placement combinators at element level, and the flag of the result cell (C05R4) -/
+
+/-- **Every result placement of an operator writes pool slots only**, at the level of the extended model (operand cells may be
+variables, constant nodes, table elements, tuple items at any depth, temporaries): for EVERY placement `p` — in particular
+`binPlace op a1 a2` of every binary operator and every pair of operand values, `unPlace op a` of every unary operator, and the
+LVAL1 of the short-circuit branch of `and` / `or` —, every result value, every pair of operand cells `x1`, `x2` (both orders: they
+are universally quantified) and every state with the flag invariant: `vars` and `csts` afterwards are IDENTICAL lists of whole
+cells and nothing is logged. (Root-cell level, old fragment: `place_frame`, `lval1_frame`, `lval2_frame` above; this is their
+analogue for `xplace`, which `evalX` uses.) -/
+theorem operator_reuse_only_temporaries (p : Place) (v : Val) (x1 x2 : XLoc) (s s' : XS) (x : XLoc) (hinv : FlagInvX s) :
+    (xplace p v x1 x2 s = .ok (x, s') → s'.st.vars = s.st.vars ∧ s'.st.csts = s.st.csts ∧ s'.log = s.log) ∧
+    (xlval1 v x1 s = .ok (x, s') → s'.st.vars = s.st.vars ∧ s'.st.csts = s.st.csts ∧ s'.log = s.log) := by
+  refine ⟨fun h => ?_, fun h => xlval1_same _ _ s s' x hinv h⟩
+  cases p <;> simp only [xplace] at h
+  · simp only [XM.pure] at h; cases h; exact ⟨rfl, rfl, rfl⟩
+  · simp only [XM.pure] at h; cases h; exact ⟨rfl, rfl, rfl⟩
+  · exact xlval1_same _ _ s s' x hinv h
+  · exact xlval2_same _ _ _ s s' x hinv h
+
+/-- non-vacuity, both operand orders, an element cell as the stored operand: `x0.at(1) - t` and `t - x0.at(1)` with LVAL2:
+the temporary receives the result, the table in `x0` keeps its element. -/
+example :
+    let tb : Val := .tab { major := .int, level := 1 } [] [.int 7, .int 8]
+    let s : XS := { st := { vars := [⟨tb, true⟩], csts := [], pool := [⟨.int 1, false⟩], wm := 1 } }
+    FlagInvX s ∧
+    (∃ s', xplace (binPlace .sub (.int 8) (.int 1)) (.int 7) ⟨.var 0, [1]⟩ ⟨.tmp 0, []⟩ s = .ok (⟨.tmp 0, []⟩, s') ∧
+       s'.st.vars.map (·.val) = [tb] ∧ s'.st.pool.map (·.val) = [.int 7]) ∧
+    (∃ s', xplace (binPlace .sub (.int 1) (.int 8)) (.int (-7)) ⟨.tmp 0, []⟩ ⟨.var 0, [1]⟩ s = .ok (⟨.tmp 0, []⟩, s') ∧
+       s'.st.vars.map (·.val) = [tb] ∧ s'.st.pool.map (·.val) = [.int (-7)]) := by
+  refine ⟨⟨by simp, by simp⟩, ⟨_, rfl, rfl, rfl⟩, ⟨_, rfl, rfl, rfl⟩⟩
+
+macro "ppool_auto" ih:ident : tactic => `(tactic| repeat (first
+  | exact PPool.pure _ | exact PPool.fail _ | exact PPool.lift _ | exact ppool_xget _ | exact ppool_logLen | exact ppool_checkHeld _ _
+  | exact ppool_xalloc _ | exact ppool_xlval1 _ _ | exact ppool_xlval2 _ _ _ | exact ppool_xplace _ _ _ _ | exact ppool_takeArg _
+  | exact ppool_wrRecv _ _ | exact ppool_recvCell _ _ | exact ppool_finishInPlace _ _ _ _ _ | exact ppool_atResult _ _ _ _
+  | exact $ih _ | exact ppool_tabStep ($ih _) _ _ _ | exact ppool_tupStep $ih _ _ | exact ppool_bindArgs $ih _ _ _
+  | exact ppool_inCallee _ _
+  | exact ppool_biArgs $ih _ _ | exact ppool_biHeld _ | exact ppool_xgets _ | exact ppool_xplaceBi _ _ _
+  | apply PPool.bind | apply PPool.ite | split | intro _))
+
+/-- No pool slot ever carries LVALUE: the pool invariant is preserved by every expression of the extended language. -/
+theorem evalX_ppool (F : List XFun) : ∀ fuel e, PPool (evalX F fuel e)
+  | 0, e => by simp only [evalX]; exact PPool.fail _
+  | fuel + 1, e => by
+    have ih := evalX_ppool F fuel
+    cases e with
+    | cst i =>
+      intro s a s' hi h
+      simp only [evalX] at h
+      split at h <;> cases h
+      exact hi
+    | var i =>
+      intro s a s' hi h
+      simp only [evalX] at h
+      split at h <;> cases h
+      exact hi
+    | un op a => simp only [evalX]; ppool_auto ih
+    | bin op a b => simp only [evalX]; ppool_auto ih
+    | mem m r args => simp only [evalX]; ppool_auto ih
+    | item r idx => simp only [evalX]; ppool_auto ih
+    | setItem r idx a => simp only [evalX]; ppool_auto ih
+    | tab0 => simp only [evalX]; ppool_auto ih
+    | tab n a => simp only [evalX]; ppool_auto ih
+    | tup args => simp only [evalX]; ppool_auto ih
+    | call f args => simp only [evalX]; ppool_auto ih
+    | bi name args => simp only [evalX]; ppool_auto ih
+
+/-- **The LVALUE flag of the result cell is set exactly when the result designates a storage.** For every node kind of the
+extended language (constants, variables, unary / binary operators with every placement, `at`, `count`, the in-place members, `@N`,
+`set@N`, `tab`, `tup`, user-function calls, the built-ins of two and more arguments with `thru` / `fresh` / `l1` / `l2`), every
+function table and fuel, every state with the flag invariant and the pool invariant (no pool slot carries LVALUE: true of the
+empty pool, preserved by everything — `evalX_ppool`): the cell `evalX` returns (`getX`: value under the path, flag of the root)
+has its flag set IFF its root is a variable slot or a constant node — the variable / constant itself or an element / item below
+it — and clear IFF it is a pool slot (a temporary, or an element of a temporary container). This is the flag the probe op
+`exprf` prints, compared by the family `result_flag`. -/
+theorem placement_flag_sound (F : List XFun) (fuel : Nat) (e : XExpr) (s s' : XS) (x : XLoc) (c : Cell)
+    (hinv : FlagInvX s) (hpool : PoolInv s.st) (h : evalX F fuel e s = .ok (x, s')) (hc : s'.st.getX x = some c) :
+    (c.lv = true ↔ NonTmp x.root) ∧ PoolInv s'.st ∧ FlagInvX s' := by
+  have hf' : FlagInvX s' := flagInvX_preserved_expr F fuel e s s' x hinv h
+  have hp' : PoolInv s'.st := evalX_ppool F fuel e s x s' hpool h
+  refine ⟨?_, hp', hf'⟩
+  unfold Store.getX at hc
+  cases hr : s'.st.root? x.root with
+  | none => rw [hr] at hc; cases hc
+  | some c0 =>
+    rw [hr] at hc
+    simp only at hc
+    cases hg : c0.val.getP x.path with
+    | none => rw [hg] at hc; cases hc
+    | some v =>
+      rw [hg] at hc
+      cases hc
+      show c0.lv = true ↔ NonTmp x.root
+      cases hx : x.root with
+      | var i => rw [hx] at hr; exact ⟨fun _ => trivial, fun _ => flagInv_root hf' (r := .var i) trivial hr⟩
+      | cst i => rw [hx] at hr; exact ⟨fun _ => trivial, fun _ => flagInv_root hf' (r := .cst i) trivial hr⟩
+      | tmp i =>
+        rw [hx] at hr
+        simp only [Store.root?] at hr
+        have : c0.lv = false := hp' c0 (List.mem_of_getElem? hr)
+        constructor
+        · intro h1; rw [this] at h1; cases h1
+        · intro h1; exact h1.elim
+
+/-- non-vacuity: `x0.at(1)` is an element of the variable (flag set, root `x0`); `max(x0.at(1), 3)` lands in a pool slot
+(flag clear); a typed-null first argument of `round` is handed through (`thru`): flag set. -/
+example :
+    let tb : Val := .tab { major := .int, level := 1 } [] [.int 7, .int 8]
+    let s : XS := { st := { vars := [⟨tb, true⟩, ⟨.null Ty.num, true⟩], csts := [⟨.int 1, true⟩, ⟨.int 3, true⟩], pool := [], wm := 0 } }
+    FlagInvX s ∧ PoolInv s.st ∧
+    (∃ s', evalX [] 4 (.mem .at (.var 0) [.cst 0]) s = .ok (⟨.var 0, [1]⟩, s') ∧ (s'.st.getX ⟨.var 0, [1]⟩).map (·.lv) = some true) ∧
+    (∃ s', evalX [] 5 (.bi "max" [.mem .at (.var 0) [.cst 0], .cst 1]) s = .ok (⟨.tmp 0, []⟩, s') ∧
+       (s'.st.getX ⟨.tmp 0, []⟩).map (fun c => (c.val, c.lv)) = some (.int 8, false)) ∧
+    (∃ s', evalX [] 4 (.bi "round" [.var 1, .cst 0]) s = .ok (⟨.var 1, []⟩, s') ∧ (s'.st.getX ⟨.var 1, []⟩).map (·.lv) = some true) := by
+  refine And.intro ⟨by simp, by simp⟩ (And.intro ?_ ⟨⟨_, rfl, rfl⟩, ⟨_, rfl, rfl⟩, ⟨_, rfl, rfl⟩⟩)
+  intro c hc
+  cases hc
+
 end Extended
 
 end BlocV.C05
